@@ -66,8 +66,8 @@ func storeList(c *fw.Ctx) []storeCfg {
 	sizes := []int{384, 512, 640}
 	if c.Quick() {
 		return []storeCfg{
-			mk("plain-v1", false, appendable.NoCompression, 1, 2, sizes[r.IntN(3)], 5, true),
-			mk("embedded-v0", true, appendable.NoCompression, 0, 1, sizes[r.IntN(3)], 5, true),
+			mk("plain-v1", false, appendable.NoCompression, 1, 2, sizes[r.IntN(3)], 4, true),
+			mk("embedded-v0", true, appendable.NoCompression, 0, 1, sizes[r.IntN(3)], 4, true),
 			mk("zlib-v1", false, appendable.ZLibCompression, 1, 1, sizes[r.IntN(3)], 3, false),
 			mk("lzw-v0", false, appendable.LZWCompression, 0, 2, sizes[r.IntN(3)], 3, false),
 			mk("flate-v1", false, appendable.FlateCompression, 1, 3, sizes[r.IntN(3)], 3, false),
@@ -175,7 +175,7 @@ func (rn *runner) handle(cases []caseT, final bool) func(rs fw.CaseResult) {
 			// control: the unaltered copy must read back identical through every path
 			bad := len(res.Findings) > 0
 			for _, o := range res.Obs {
-				if strings.Contains(o, "|error:") || strings.Contains(o, "DIFFERENT") || strings.Contains(o, "LOCK") || strings.Contains(o, "lagging") {
+				if strings.Contains(o, "|error:") || strings.Contains(o, "not-called") || strings.Contains(o, "DIFFERENT") || strings.Contains(o, "LOCK") || strings.Contains(o, "lagging") {
 					bad = true
 				}
 			}
@@ -188,6 +188,7 @@ func (rn *runner) handle(cases []caseT, final bool) func(rs fw.CaseResult) {
 		c.Eval(1)
 		c.Count("cases_"+cs.Kind, 1)
 		c.Count("index_"+res.Index, 1)
+		c.Count("calls_not_made_length_over_16MiB", int64(res.HugeSkipped))
 		for _, o := range res.Obs {
 			c.Distinct(fmtKey + "|" + o)
 			p := o
@@ -274,6 +275,7 @@ func Run(c *fw.Ctx) {
 		m.cases = append(m.cases, caseT{S: s, Kind: "pristine", Field: "none", Tx: allTx, Note: "store " + cf.Name + ": unaltered copy (control)"})
 		m.singleBits(cf.Full)
 		m.fieldTargeted()
+		m.trailerCombos(mr)
 		m.splices(mr, c.N(300, 3000))
 		m.multi(mr, c.N(250, 22000))
 		for _, cs := range m.cases {
